@@ -40,6 +40,7 @@ func genC12(r *h.Rng, tier string, idx int) *h.Plan {
 	p.Cfg["pct_depth"] = r.Range(0, 4)
 	p.Tape.Seed = r.U64()
 	p.Tape.MapOrder = r.Pick([]string{"sorted", "reversed", "shuffled"})
+	p.Cfg["expired"] = r.P(1, 100) // (costs a real second or two per run)
 	ids := []string{"s1", "s2", "s3"}
 	rids := []string{"q1", "q2"}
 	weights := []int{6, 3, 4, 3, 3, 1, 2, 3}
@@ -78,6 +79,9 @@ func genC12(r *h.Rng, tier string, idx int) *h.Plan {
 			case 4:
 				op = h.Op{K: "addrule", Id: r.Pick(rids), J: map[string]interface{}{
 					"when": map[string]interface{}{"pattern": map[string]interface{}{"ev": "e"}}, "action": map[string]interface{}{"code": fmt.Sprintf("'m%d'", uniq)}}}
+				if r.P(1, 3) {
+					op.J.(map[string]interface{})["ttl"] = "1h" // never reached; readers handle the rule's expiration all the same
+				}
 			case 5:
 				op = h.Op{K: "remrule", Id: r.Pick(rids)}
 			case 6:
@@ -115,7 +119,19 @@ func c12Encode(m map[string]string) string {
 }
 
 func c12RuleWrapper(rule map[string]interface{}) string {
-	return h.CanonSet(map[string]interface{}{"rule": rule})
+	return h.CanonSet(c12NoExpiry(map[string]interface{}{"rule": h.Clone(rule)}))
+}
+
+// c12NoExpiry drops the expiry of a far-future ttl (some rules carry one, so
+// that readers go through the code that handles it) from what is compared.
+func c12NoExpiry(body map[string]interface{}) map[string]interface{} {
+	delete(body, "expires")
+	delete(body, "ttl")
+	if r, ok := body["rule"].(map[string]interface{}); ok {
+		delete(r, "expires")
+		delete(r, "ttl")
+	}
+	return body
 }
 
 // c12Apply is the sequential model of one operation: new state and the
@@ -430,7 +446,7 @@ func c12Do(loc *core.Location, store *h.SimStorage, op h.Op) string {
 		if err != nil {
 			return "NOTFOUND"
 		}
-		return h.CanonSet(stripId(f))
+		return h.CanonSet(c12NoExpiry(h.CloneMap(stripId(f))))
 	case "search":
 		srs, err := loc.SearchFacts(ctx, core.Map(op.Map()), false)
 		if err != nil {
@@ -466,13 +482,13 @@ func c12Do(loc *core.Location, store *h.SimStorage, op h.Op) string {
 	case "finalget":
 		mem := "NOTFOUND"
 		if f, err := loc.GetFact(ctx, op.Id); err == nil {
-			mem = h.CanonSet(stripId(f))
+			mem = h.CanonSet(c12NoExpiry(h.CloneMap(stripId(f))))
 		}
 		st := "NOTFOUND"
 		if js, ok := store.Dump("L")[op.Id]; ok {
 			body := h.ParseMap(js)
 			delete(body, "_id")
-			st = h.CanonSet(body)
+			st = h.CanonSet(c12NoExpiry(body))
 		}
 		return mem + " | " + st
 	}
@@ -499,6 +515,18 @@ func execC12(t *testing.T, plan *h.Plan, trace bool) *h.Result {
 		back := h.NewBackend("mem")
 		eng := h.NewCoreEngine(state, back, h.QuietControl())
 		loc := eng.Loc("L")
+		if b, _ := plan.Cfg["expired"].(bool); b {
+			// Items that have expired, unobserved, by the time the clients start
+			// (this world has no fake clock: a real wait of at most a second):
+			// every reader that comes across them has to leave them out - and
+			// must not take them out of the shared state while it only reads.
+			ctx := h.NewCtx(h.Prot{})
+			loc.AddFact(ctx, "x1", core.Map{"v": "old1", "tag": "a", "ttl": "1s"})
+			loc.AddFact(ctx, "x2", core.Map{"v": "old2", "tag": "b", "ttl": "1s"})
+			loc.AddRule(ctx, "qx", core.Map{"when": map[string]interface{}{"pattern": map[string]interface{}{"ev": "e"}},
+				"action": map[string]interface{}{"code": "'mx'"}, "ttl": "1s"})
+			time.Sleep(time.Until(time.Now().Truncate(time.Second).Add(time.Second + 20*time.Millisecond)))
+		}
 		eng.Store.Yield = simrt.Yield
 		nc := int(plan.CfgI("clients", 2))
 		recs := make([][]c12Rec, nc)
